@@ -359,9 +359,21 @@ func (g *GoFakeS3) listBucketVersions(bucketName string, w http.ResponseWriter, 
 		page = ListBucketVersionsPage{}
 	}
 
+	// S300005: the version ID of an object in a bucket that never had
+	// versioning enabled is shown to clients as 'null' (see below), so that is
+	// what comes back as the marker of such a version; it is the only version
+	// of its key.
+	if page.VersionIDMarker == "null" {
+		page.VersionIDMarker, page.HasVersionIDMarker = "", false
+	}
+
 	bucket, err := g.versioned.ListBucketVersions(bucketName, &prefix, &page)
 	if err != nil {
 		return err
+	}
+
+	if bucket.IsTruncated && bucket.NextKeyMarker != "" && bucket.NextVersionIDMarker == "" {
+		bucket.NextVersionIDMarker = "null"
 	}
 
 	for _, ver := range bucket.Versions {
